@@ -213,7 +213,7 @@ func TestSoak(t *testing.T) {
 	i := 0
 	for _, b := range gen.Bindings {
 		i++
-		if !env.Mine(i) || (b.Spec.HasTail() && !env.Thorough()) {
+		if !env.Mine(i) {
 			continue
 		}
 		v := gen.SeedVals(b, uint64(i)*104729+uint64(env.Seed), 2, 5)
@@ -224,7 +224,13 @@ func TestSoak(t *testing.T) {
 		}
 		for k := 0; k < n; k++ {
 			out, err := c.IEncode()
-			if err != nil || !bytes.Equal(out, first) {
+			// optional parameters are a set: their order in the image follows Go's map iteration and may differ from
+			// call to call, so images of types with an optional part are compared as header + mandatory part + multiset
+			same := bytes.Equal(out, first)
+			if !same && err == nil && b.Spec.HasTail() {
+				same = gen.SameImage(b.Spec, ref.MandatoryLen(b.Spec, gen.Normalise(b, v)), first, out) == ""
+			}
+			if err != nil || !same {
 				rec.Report(t, "roundtrip", vk.Violf(b.Spec.ID()+"/soak/encode-result-drifts", gen.PCase{Vals: ref.ToJ(b.Spec, v), Note: fmt.Sprintf("encode number %d of the same value", k+2)}, "%s: encode number %d of the same value returned %x, %v; the first returned %x", b.Spec.ID(), k+2, clip(out), err, clip(first)))
 				break
 			}
